@@ -150,3 +150,37 @@ def Expr.inRange (r : Rng) (ρ : Nat → Int) : Expr → Bool
   | .bin op l r' => l.inRange r ρ && r'.inRange r ρ && (match (Expr.bin op l r').eval ρ with | some v => r.contains v | none => false)
 
 end Yardl
+
+/-! ### The type of an integer literal (validation_computed_fields.go, `case *IntegerLiteralExpression`) -/
+
+namespace Yardl
+
+/-- the integer types a literal can get: (signed, bits) -/
+structure IntTy where
+  signed : Bool
+  bits : Nat
+  deriving DecidableEq, Repr
+
+def IntTy.rng (t : IntTy) : Rng :=
+  if t.signed then ⟨-(2 ^ (t.bits - 1) : Int), 2 ^ (t.bits - 1) - 1⟩ else ⟨0, 2 ^ t.bits - 1⟩
+
+/-- the cascade of comparisons: a non-negative literal gets the narrowest unsigned type that holds it, a negative one the
+    narrowest signed type; `none`: "integer literal is too large" -/
+def litType (n : Int) : Option IntTy :=
+  if 0 ≤ n then
+    if n ≤ 255 then some ⟨false, 8⟩
+    else if n ≤ 65535 then some ⟨false, 16⟩
+    else if n ≤ 4294967295 then some ⟨false, 32⟩
+    else if n ≤ 18446744073709551615 then some ⟨false, 64⟩
+    else none
+  else
+    if -128 ≤ n then some ⟨true, 8⟩
+    else if -32768 ≤ n then some ⟨true, 16⟩
+    else if -2147483648 ≤ n then some ⟨true, 32⟩
+    else if -9223372036854775808 ≤ n then some ⟨true, 64⟩
+    else none
+
+/-- the widths yardl has -/
+def IntTy.valid (t : IntTy) : Bool := t.bits == 8 || t.bits == 16 || t.bits == 32 || t.bits == 64
+
+end Yardl
